@@ -430,7 +430,23 @@ def r2_capabilities(ctx) -> None:
                 r.violation("C16.R2e", q, short(c, 140),
                             "this call accepts vars_allowed_paths but the caller's restriction is not handed on: the callee falls back to None, "
                             "i.e. vars files anywhere on disk become executable below this point", loc)
-    r.floor("C16.R2e", 5)
+    # the restriction is derived from the file location unconditionally: whether vars execution is allowed is decided much
+    # later (argument *or* environment), so the derivation must not depend on the opt-in argument
+    fy = prog.func("sigma.processing.pipeline.ProcessingPipeline.from_yaml")
+    der = [n for n in walk_no_nested(fy.node) if isinstance(n, ast.Assign) and unparse(n.targets[0]) == "vars_allowed_paths"]
+    if not der:
+        r.violation("C16.R2e", fy.qual, "vars_allowed_paths = (os.path.dirname(os.path.realpath(source_path)),)", "a pipeline loaded from a file no longer gets its own directory as the only place vars files may come from", fy.loc)
+    for n in der:
+        gs = atomic_guards(guards_at(prog, fy, n))
+        extra = [(g, p) for g, p in gs if (g, p) not in (("vars_allowed_paths is None", True), ("source_path is not None", True))]
+        loc = f"{fy.module.relpath}:{n.lineno}"
+        if extra:
+            r.violation("C16.R2e", fy.qual, f"derivation of vars_allowed_paths guarded by {extra[0][0]}", f"the base-directory restriction is only derived under {extra}: when vars execution is enabled another way (PYSIGMA_ALLOW_VARS_EXECUTION=1, the only opt-in through the resolver) no restriction exists and a pipeline file can execute a vars file anywhere on disk", loc)
+        elif "os.path.realpath(source_path)" in unparse(n.value) and "os.path.dirname" in unparse(n.value):
+            r.ok("C16.R2e", fy.qual, "vars_allowed_paths = (dirname(realpath(source_path)),) whenever the caller gave a source path and no explicit restriction", loc)
+        else:
+            r.violation("C16.R2e", fy.qual, stmt_head(n), "the derived restriction is not the real directory of the pipeline file", loc)
+    r.floor("C16.R2e", 6)
     # ---- R2c construction-from-document sites
     _r2c(ctx, carriers)
     r.floor("C16.R2b", 20)
